@@ -44,6 +44,14 @@ struct TdFam {
     (void)o.get_serialized_size_bytes(r.coin());
   }
   static const bool HAS_MERGE_REF = true, HAS_MERGE_MOVE = false, HAS_RESET = false, HAS_ROUNDTRIP = true;
+  static const int SELF_MERGE = SM_DOUBLES;   // total weight doubles, range and k stay
+  static SelfMergeFacts self_merge_facts(const Obj& o, const Cfg&) {
+    SelfMergeFacts f;
+    f.doubles = {static_cast<double>(o.get_total_weight())};
+    f.same = "k=" + std::to_string(o.get_k());
+    if (!o.is_empty()) f.same += " min=" + dstr(o.get_min_value()) + " max=" + dstr(o.get_max_value());
+    return f;
+  }
   static void merge_ref(Obj& d, const Obj& s, const Cfg&) { d.merge(s); }
   static void merge_move(Obj&, Obj&&, const Cfg&) {}
   static void reset(Obj&, const Cfg&) {}
@@ -79,6 +87,8 @@ struct CmFam {
   }
   static void query(const Obj& o, const Cfg&, Rng& r) { const uint64_t v = r.below(1000); (void)o.get_estimate(v); (void)o.get_upper_bound(v); (void)o.get_lower_bound(v); (void)o.get_relative_error(); }
   static const bool HAS_MERGE_REF = true, HAS_MERGE_MOVE = false, HAS_RESET = false, HAS_ROUNDTRIP = true;
+  static const int SELF_MERGE = SM_REFUSES;   // documented: "Cannot merge a sketch with itself."
+  static SelfMergeFacts self_merge_facts(const Obj& o, const Cfg&) { SelfMergeFacts f; f.doubles = {static_cast<double>(o.get_total_weight())}; f.same = "shape=" + std::to_string(o.get_num_hashes()) + "x" + std::to_string(o.get_num_buckets()); return f; }
   // objects of differently shaped configurations cannot be merged (documented: throws); merge only compatible ones
   static void merge_ref(Obj& d, const Obj& s, const Cfg&) { if (d.get_num_hashes() == s.get_num_hashes() && d.get_num_buckets() == s.get_num_buckets() && d.get_seed() == s.get_seed()) d.merge(s); else xcount("count_min.merge_skipped_incompatible"); }
   static void merge_move(Obj&, Obj&&, const Cfg&) {}
@@ -115,6 +125,14 @@ struct BloomFam {
   }
   static void query(const Obj& o, const Cfg&, Rng& r) { const uint64_t v = r.below(5000); (void)o.query(v); (void)o.query(std::string("x") + std::to_string(v)); (void)o.get_serialized_size_bytes(); }
   static const bool HAS_MERGE_REF = true, HAS_MERGE_MOVE = false, HAS_RESET = true, HAS_ROUNDTRIP = true;
+  static const int SELF_MERGE = SM_IDEMPOTENT;   // union / intersection with itself
+  static SelfMergeFacts self_merge_facts(const Obj& o, const Cfg&) {
+    SelfMergeFacts f;
+    auto b = o.serialize();
+    if (b.size() >= 32) memset(b.data() + 24, 0, 8);   // cached number of set bits / "dirty" marker: not content
+    f.same = "cap=" + std::to_string(o.get_capacity()) + " h=" + std::to_string(o.get_num_hashes()) + " empty=" + std::to_string(o.is_empty()) + " bits=" + bytes_hex(b);
+    return f;
+  }
   static void merge_ref(Obj& d, const Obj& s, const Cfg&) { if (!d.is_compatible(s)) { xcount("bloom.merge_skipped_incompatible"); return; } if (s.is_empty() || (mix64(s.get_capacity(), d.get_seed()) & 1)) d.union_with(s); else d.intersect(s); }
   static void merge_move(Obj&, Obj&&, const Cfg&) {}
   static void reset(Obj& o, const Cfg&) { o.reset(); }
@@ -156,6 +174,8 @@ struct DensityFam {
   }
   static void query(const Obj& o, const Cfg&, Rng& r) { if (o.is_empty()) return; std::vector<double> p(o.get_dim(), r.unit()); (void)o.get_estimate(p); }
   static const bool HAS_MERGE_REF = true, HAS_MERGE_MOVE = true, HAS_RESET = false, HAS_ROUNDTRIP = true;
+  static const int SELF_MERGE = SM_DOUBLES;   // n doubles; k and dim stay
+  static SelfMergeFacts self_merge_facts(const Obj& o, const Cfg&) { SelfMergeFacts f; f.doubles = {static_cast<double>(o.get_n())}; f.same = "k=" + std::to_string(o.get_k()) + " dim=" + std::to_string(o.get_dim()); return f; }
   // sketches of different dimension cannot be merged (documented: throws); merge only compatible ones
   static void merge_ref(Obj& d, const Obj& s, const Cfg&) { if (d.get_dim() == s.get_dim()) d.merge(s); else xcount("density.merge_skipped_incompatible"); }
   static void merge_move(Obj& d, Obj&& s, const Cfg&) { if (d.get_dim() == s.get_dim()) d.merge(std::move(s)); else xcount("density.merge_skipped_incompatible"); }
